@@ -259,7 +259,8 @@ def model_inputs(model, inputs):
 
 
 def prove_paths(ck, name, fn, goals, replay, max_paths=500, assumptions=(), expect_exc=(),
-                timeout_ms=None, wall_s=None, tol_goals=None, sqrt_mode='fresh', twin_timeout_ms=3000):
+                timeout_ms=None, wall_s=None, tol_goals=None, sqrt_mode='fresh', twin_timeout_ms=3000,
+                fork_policy='check', prefer_true=()):
     """Explore fn symbolically, and for every feasible path and every goal ask the solver for a
     counterexample.  goals(out) -> [(goal_name, z3 Bool)];  replay(concrete_inputs, goal_name,
     out) -> None (holds on the real code => spurious) or (key, what, replay_dict).
@@ -268,7 +269,7 @@ def prove_paths(ck, name, fn, goals, replay, max_paths=500, assumptions=(), expe
     goal has a counterexample."""
     qt = 10000 if ck.tier == 'quick' else 60000
     paths = symx.explore(fn, max_paths=max_paths, query_timeout_ms=qt, wall_s=wall_s,
-                         assumptions=assumptions, sqrt_mode=sqrt_mode)
+                         assumptions=assumptions, sqrt_mode=sqrt_mode, fork_policy=fork_policy, prefer_true=prefer_true)
     ck.account(paths)
     reach = 0
     for pi, p in enumerate(paths):
@@ -277,13 +278,20 @@ def prove_paths(ck, name, fn, goals, replay, max_paths=500, assumptions=(), expe
                 continue
             raise symx.HarnessError('%s: path %d raised %r' % (name, pi, p.exc)) from p.exc
         out = p.value
-        prem = p.pc + p.axioms
+        # goals may build new terms (fresh symbols, side conditions): evaluate them inside the path's context
+        p.ctx.fork_policy = 'assume'
+        core.set_ctx(p.ctx)
+        try:
+            goal_list = list(goals(out))
+            tg = tol_goals(out) if tol_goals else {}
+        finally:
+            core.set_ctx(None)
+        prem = p.ctx.pc + p.ctx.axioms
         v, _ = ck.decide(name + ':twin', prem, z3.BoolVal(True), twin_timeout_ms)
         if v == 'unsat':
             continue            # infeasible path (can happen after unknown feasibility answers)
         reach += 1
-        tg = tol_goals(out) if tol_goals else {}
-        for gname, goal in goals(out):
+        for gname, goal in goal_list:
             oname = '%s/path%d/%s' % (name, pi, gname)
             v, model = ck.decide(oname, prem, z3.Not(goal), timeout_ms)
             stage = 'exact'
